@@ -26,6 +26,24 @@ CLAIMED = {
              "proved in Lean 4 over any ordered field with floor (24 theorems); bit-exact correspondence against stats.h/histogram.h/store_stats on "
              "integer and dyadic data plus an independent sorted-array oracle with exact rational positions.",
         note=NOTE_COMMON + "std::sort/nth_element are assumed to produce a sorted permutation; make_from_exponents' pow/log threshold formula is read back from the implementation, not modelled."),
+    "C13": dict(
+        category="proof", technique=TECH, design="DESIGN.md §4 C13",
+        text="Both tuners are modelled as a small-step machine (coarse / main / done) with std::sort and the surrogate's proposed centre as oracles; "
+             "for every callback, sort meeting the contract and oracle it is proved that only grid points are evaluated, none twice, at most "
+             "max_evals + 3^d, non-finite values are rejected exactly then, the returned steps are all evaluations sorted with the minimum first, and "
+             "termination; for ml::tune the (trial, fold) decoding is a bijection onto disjoint slots, each pair is called once and the optimum is the "
+             "first arg-min of the mean validation error (25 theorems). Exact correspondence of every callback batch / returned step / call log against "
+             "tuner.cpp, util.cpp, local.cpp, surrogate.cpp, machine/tune.cpp plus direct monitors of the statement.",
+        note=NOTE_COMMON + "The quadratic-surrogate fit (an L-BFGS run) is an oracle: only the centre it proposes is observed; the pool running each index once is C17's theorem. "
+             "One open known finding (surrogate tuner overflows on |values| >= 1e150)."),
+    "C14": dict(
+        category="proof", technique=TECH, design="DESIGN.md §4 C14",
+        text="upscale(scale(x)) = x for every finite x, every mode and any data (constant, single-sample, all-missing, disabled columns), the advertised "
+             "range / mean / deviation, categorical columns untouched, missing -> 0 and ignored, variance >= 0 (why the clamp is sound) and the n-dimensional "
+             "affine up-scaling theorem W'x + b' = upscale_t(W scale_x(x) + b) for all 4x4 mode pairs are proved in Lean 4 over any ordered field (14 theorems); "
+             "bit-exact correspondence of stats.cpp (statistics, scale, upscale, affine conversion, iterators) at Float, Eigen products within 1e-12 of the summed terms; "
+             "independent oracle with exact rational statistics.",
+        note=NOTE_COMMON + "sqrt enters the proofs as a value sd >= 0 with sd*sd = var; linear_t::fit itself is not executed (only its scaling-related calls)."),
 }
 
 PENDING = "check under construction in this session; not claimed until its quick check is green on the unchanged tree at several seeds"
